@@ -19,7 +19,7 @@ RULE = (
     "outside files. (i) all sequences up to length 4 (thorough 5) over a 10-symbol alphabet on a 2-group x 3-slot "
     "universe for each of the 7 limit combinations; (ii) Hypothesis histories of up to 60 steps: create (+/- event), "
     "duplicate created, modified (grown / shrunk / unchanged), deleted event (file gone or not), delete without "
-    "event, tmp->final move, final->non-matching move, add/modify/remove batches (sorted or not), events for "
+    "event, tmp->final move, final->non-matching move, final->final move (both names match), add/modify/remove batches (sorted or not), events for "
     "properties / tmp. paths, re-scans (_add_existing_files, _verify_ringbuffer_files) - no observer "
     "thread. After every step: every deleted file was tracked, is a data/metadata file in the tree and was the "
     "oldest of its group; records / queues / active_size equal the model (sizes as last reported); every deletion "
@@ -230,6 +230,18 @@ def run_sim(case, fail):
                         sim.h.dispatch(ev.FileMovedEvent(tmp, p))
                         new_report = not tracked_before
                         sim.m_add(op["f"], sizes)
+                    elif o == "move_final":
+                        # rename of a tracked file to another valid data-file name of the same group
+                        p = sim.path(op["f"])
+                        q = sim.path(op["t"])
+                        if os.path.exists(p) and not os.path.exists(q) and sim.group(op["f"]) == sim.group(op["t"]):
+                            tracked_before = q in sim.model
+                            os.rename(p, q)
+                            sizes = sim.stat([op["t"]])
+                            sim.h.dispatch(ev.FileMovedEvent(p, q))
+                            sim.model.pop(p, None)
+                            new_report = not tracked_before
+                            sim.m_add(op["t"], sizes)
                     elif o == "move_away":
                         p = sim.path(op["f"])
                         dst = p + ".bak"
@@ -383,7 +395,7 @@ def _cases(draw, tier):
     f = st.integers(0, nfiles - 1)
     sz = st.sampled_from([1024, 1500, 2048, 3000, 4096])
     for _ in range(nsteps):
-        k = draw(st.sampled_from(["create"] * 6 + ["created", "modify", "modify", "deleted", "unlink", "move_tmp", "move_away",
+        k = draw(st.sampled_from(["create"] * 6 + ["created", "modify", "modify", "deleted", "unlink", "move_tmp", "move_away", "move_final", "move_final",
                                   "batch_add", "batch_modify", "batch_remove", "noise", "rescan"]))
         if k == "create":
             ops.append({"o": k, "f": draw(f), "size": draw(sz), "event": draw(st.sampled_from([True, True, True, False]))})
@@ -395,6 +407,9 @@ def _cases(draw, tier):
             ops.append({"o": k, "f": draw(f), "really": draw(st.booleans())})
         elif k in ("unlink", "move_away"):
             ops.append({"o": k, "f": draw(f)})
+        elif k == "move_final":
+            a = draw(f)
+            ops.append({"o": k, "f": a, "t": (a // slots) * slots + draw(st.integers(0, slots - 1))})
         elif k == "move_tmp":
             ops.append({"o": k, "f": draw(f), "size": draw(sz)})
         elif k.startswith("batch"):
